@@ -1210,6 +1210,17 @@ func (a *Analysis) spuriousRejections(paths []*Path) []string {
 			// bytes an encoder produced – for the literal arguments of the message codecs such a test is a constant
 			return true, nil
 		}
+		if last.V.Contains(func(x *Val) bool {
+			if x.Type == nil {
+				return false
+			}
+			_, isTP := x.Type.(*types.TypeParam)
+			return isTP
+		}) {
+			// a test on a value of a type parameter's type in a generic body (`count > max(T)`, `int(t) != n`): what it
+			// amounts to depends on the type argument – every instantiation the module uses is analysed and decides
+			return true, nil
+		}
 		return false, &last
 	}
 	for _, p := range paths {
